@@ -13,7 +13,7 @@ func init() {
 	Registry["C07"] = c07
 	Metas["C07"] = Meta{Level: "other", NeedCG: true,
 		Technique: "static analysis: dominance of log-before-handle on every input arm, must-pass-through of the flush on all paths of the WAL writer, replay-hygiene ordering rules, identity of the replayed record with the logged one",
-		Explain: "Crash points and byte-level truncation of the log cannot be enumerated statically. Decided: (R1) in receiveRoutine each of the three inputs is written to the WAL before it is handled, and the handled value is the logged one; (R2) WAL.Save/writeHeight flush after every record and a write/flush error is fatal (never silently dropped); the light-mode early return precedes any write; (R3) the height marker is written before the NewHeight record; every step is logged unconditionally by newStep (the only writer of the next height's marker); (R4) replay hygiene: replayMode brackets catchupReplay, the decode error is tested before the record is used, the logged record (with its peer key) is re-handled unchanged, failures return errors instead of panicking, and replay completes before the receive routine starts; (R5) a refused signature during replay is tolerated (shared with C03-R4). NOT decided: torn last line, rotation, truncation at arbitrary byte offsets, equality of the restored state with the pre-crash state.",
+		Explain: "Crash points and byte-level truncation of the log cannot be enumerated statically. Decided: (R1) in receiveRoutine each of the three inputs is written to the WAL before it is handled, and the handled value is the logged one; (R2) WAL.Save/writeHeight flush after every record and a write/flush error is fatal (never silently dropped); the light-mode early return precedes any write; (R3) the height marker is written before the NewHeight record; every step is logged unconditionally by newStep (the only writer of the next height's marker); (R4) replay hygiene: replayMode brackets catchupReplay, the decode error is tested before the record is used, the logged record (with its peer key) is re-handled unchanged, failures return errors instead of panicking, and replay completes before the receive routine starts; (R5) a refused signature during replay is tolerated (shared with C03-R4). (R6) a restart rebuilds LastCommit from the stored seen commit over state.LastValidators and installs it only with +2/3. NOT decided: torn last line, rotation, truncation at arbitrary byte offsets, equality of the restored state with the pre-crash state.",
 		Assume: []string{"go-autofile Group.Flush reports a sticky write error", "the signer refuses conflicting signatures (C03)"},
 	}
 }
@@ -26,6 +26,7 @@ func c07(c *Ctx) {
 	c07R3(c)
 	c07R4(c)
 	signTolerantRule(c, "R5")
+	c07R6(c)
 }
 
 func c07R1(c *Ctx) {
@@ -208,5 +209,32 @@ func c07R4(c *Ctx) {
 		// ticker started before replay (replay schedules timeouts on tickChan)
 		tk := f.CallsTo(cfgx.Named("iface:gemmill/consensus/pbft.TimeoutTicker.Start"))
 		c.R.Ob(rule, "OnStart:ticker≺replay", len(tk) == 1 && len(cr) == 1 && f.Dominates(tk[0], cr[0]), c.P.Pos(f.F.Pos()), fname(f), "the ticker must run during replay or scheduleTimeout blocks on tickChan")
+	}
+}
+
+
+// c07R6: what a restart rebuilds besides the WAL replay.
+func c07R6(c *Ctx) {
+	rule := c.R.Rule("R6", "restart reconstruction: reconstructLastCommit rebuilds cs.LastCommit from the stored seen-commit of state.LastBlockHeight, in a precommit vote set for that height and the commit's round over state.LastValidators (the set that signed it), and installs it only when it has +2/3", 5)
+	f := c.Anchor(rule, csT+".reconstructLastCommit")
+	if f == nil {
+		return
+	}
+	var nvs ssa.CallInstruction
+	for _, ci := range f.CallsTo(cfgx.Named("gemmill/types.NewVoteSet")) {
+		nvs = ci
+	}
+	if nvs == nil {
+		c.R.Undecided(rule, "NewVoteSet", c.P.Pos(f.F.Pos()), fname(f), "no NewVoteSet call")
+		return
+	}
+	seen := "gemmill/blockchain.(*BlockStore).LoadSeenCommit(a0.blockStore,a1.LastBlockHeight)"
+	c.R.Ob(rule, "voteset:height=LastBlockHeight", callArg(nvs, 1) == "a1.LastBlockHeight", c.Pos(nvs), fname(f), "got "+callArg(nvs, 1))
+	c.R.Ob(rule, "voteset:round=seen-commit-round", callArg(nvs, 2) == "gemmill/types.(*Commit).Round("+seen+")", c.Pos(nvs), fname(f), "got "+shorten(callArg(nvs, 2)))
+	c.R.Ob(rule, "voteset:type=precommit", callArg(nvs, 3) == "2", c.Pos(nvs), fname(f), "got "+callArg(nvs, 3))
+	c.R.Ob(rule, "voteset:validators=LastValidators", callArg(nvs, 4) == "a1.LastValidators", c.Pos(nvs), fname(f), "the seen commit of height h was signed by the validator set of height h (state.LastValidators after the block was applied), got "+callArg(nvs, 4))
+	for _, st := range f.FieldStores(rsT, "LastCommit") {
+		ok := f.HasGuard(st, func(g string) bool { return strings.HasPrefix(g, "gemmill/types.(*VoteSet).HasTwoThirdsMajority(gemmill/types.NewVoteSet(") })
+		c.R.Ob(rule, "LastCommit-installed⊣has+2/3", ok, c.Pos(st), fname(f), "cs.LastCommit must be a set with a +2/3 majority")
 	}
 }
